@@ -747,11 +747,117 @@ fn placements(sw: u8, wm: u8, conns: u8, torrents: u8) -> Vec<Placement> {
 
 static NS: AtomicU64 = AtomicU64::new(1);
 
+
+/// Pipelined bursts: `n` requests written to one connection in a single flush; every one of them must be answered,
+/// and every offer forwarded to the one other member of the torrent must arrive.
+/// Returns (scrape replies, announce replies, offers received by the other peer).
+pub fn burst(trk: &Tracker, ns: u64, n: usize, sender_worker: u8, receiver_worker: u8) -> (usize, usize, usize) {
+    let pl = Placement { conn_worker: vec![sender_worker, receiver_worker, 0], torrent_worker: vec![0, 1] };
+    let addr = |w: u8| SocketAddr::new(IpAddr::V4(Ipv4Addr::LOCALHOST), trk.child.port + (w % trk.socket_workers) as u16);
+    let h = id20(&hash_for(ns, 0, &pl, trk.swarm_workers));
+    let mut a = WsConn::connect(addr(receiver_worker)).unwrap_or_else(|| machinery_failure(&format!("burst: connect (n = {}) to {:?}/{:?} of {}; tracker printed {:?}", n, addr(sender_worker), addr(receiver_worker), trk.label, trk.child.stdout_lines.lock().unwrap())));
+    let mut b = WsConn::connect(addr(sender_worker)).unwrap_or_else(|| machinery_failure(&format!("burst: connect (n = {}) to {:?}/{:?} of {}; tracker printed {:?}", n, addr(sender_worker), addr(receiver_worker), trk.label, trk.child.stdout_lines.lock().unwrap())));
+    // receiver joins the torrent
+    a.send_text(json!({"action": "announce", "info_hash": h, "peer_id": id20(&pid_bytes(ns, 1)), "numwant": 0, "left": 1, "event": "started"}).to_string());
+    let _ = a.recv_text(3000);
+    // 1. n pipelined scrapes
+    for _ in 0..n {
+        let _ = b.ws.write(tungstenite::Message::text(json!({"action": "scrape", "info_hash": [h.clone()]}).to_string()));
+    }
+    let _ = b.ws.flush();
+    let mut scrapes = 0;
+    while let Some(t) = b.recv_text(if scrapes < n { 1000 } else { 60 }) {
+        if t.contains("\"scrape\"") {
+            scrapes += 1;
+        }
+    }
+    // 2. n pipelined announces with one offer each
+    for i in 0..n {
+        let m = json!({"action": "announce", "info_hash": h, "peer_id": id20(&pid_bytes(ns, 2)), "numwant": 1, "left": 1,
+            "offers": [{"offer_id": id20(&oid_bytes(i as u32)), "offer": {"type": "offer", "sdp": "x"}}]});
+        let _ = b.ws.write(tungstenite::Message::text(m.to_string()));
+    }
+    let _ = b.ws.flush();
+    let mut announces = 0;
+    while let Some(t) = b.recv_text(if announces < n { 1000 } else { 60 }) {
+        if t.contains("\"complete\"") {
+            announces += 1;
+        }
+    }
+    let mut offers = 0;
+    while let Some(t) = a.recv_text(if offers < n { 1000 } else { 60 }) {
+        if t.contains("\"offer_id\"") {
+            offers += 1;
+        }
+    }
+    (scrapes, announces, offers)
+}
+
+/// Judge one burst: up to 16 messages in flight towards a connection must all arrive; beyond that, losses are reported under
+/// their own signatures (the per-connection channel between the socket worker and the connection's writer has 16 slots)
+fn judge_burst(sw: u8, wm: u8, n: usize, s_w: u8, r_w: u8, r: (usize, usize, usize)) -> Vec<(String, String, Value)> {
+    let mut v = Vec::new();
+    let d = json!({"burst": {"n": n, "sender_worker": s_w, "receiver_worker": r_w}, "socket_workers": sw, "swarm_workers": wm});
+    for (kind, got) in [("scrape-replies", r.0), ("announce-replies", r.1), ("offers", r.2)] {
+        if got != n {
+            let sig = if n <= 16 { format!("ws/burst/{}-lost", kind) } else { format!("ws/burst/over-16-in-flight/{}-lost", kind) };
+            v.push((sig, format!("{} requests written to one connection in a single flush (socket_workers={} swarm_workers={}, sender on socket worker {}, the torrent's other member on {}): {} of {} {} arrived", n, sw, wm, s_w, r_w, got, n, kind), d.clone()));
+        }
+    }
+    v
+}
+
+/// Pipelined bursts against fresh trackers: every n up to the 16 slots of the per-connection channel, and a few beyond
+fn burst_phase(th: bool, configs: &[(u8, u8)]) -> (Vec<(String, String, Value)>, u64) {
+    let burst_cfgs: Vec<(u8, u8)> = if th { configs.to_vec() } else { vec![(1, 1), (2, 2)] };
+    let burst_ns: Vec<usize> = (1..=16).chain(if th { vec![17usize, 24, 64, 200] } else { vec![17, 64] }).collect();
+    // started from this thread: PR_SET_PDEATHSIG fires when the spawning *thread* exits
+    let burst_trackers: Vec<Tracker> = burst_cfgs.iter().map(|&(sw, wm)| start_tracker(sw, wm)).collect();
+    let mut burst_jobs: Vec<(usize, usize, u8, u8)> = Vec::new();
+    for (ti, &(sw, _)) in burst_cfgs.iter().enumerate() {
+        for &n in &burst_ns {
+            burst_jobs.push((ti, n, 0, 0));
+            if sw > 1 {
+                burst_jobs.push((ti, n, 0, 1));
+            }
+        }
+    }
+    let burst_res = par_map(&burst_jobs, 8, |&(ti, n, s_w, r_w)| {
+        let trk = &burst_trackers[ti];
+        let (sw, wm) = burst_cfgs[ti];
+        let mut r = burst(trk, NS.fetch_add(1, Ordering::Relaxed), n, s_w, r_w);
+        if n <= 16 && r != (n, n, n) {
+            // only a loss that reproduces counts
+            r = burst(trk, NS.fetch_add(1, Ordering::Relaxed), n, s_w, r_w);
+        }
+        judge_burst(sw, wm, n, s_w, r_w, r)
+    });
+    drop(burst_trackers);
+    let mut seen = BTreeSet::new();
+    let mut out = Vec::new();
+    for v in burst_res {
+        for (sig, what, d) in v {
+            // one report per signature
+            if seen.insert(sig.clone()) {
+                out.push((sig, what, d));
+            }
+        }
+    }
+    (out, burst_jobs.len() as u64)
+}
+
 pub fn main(args: &Args) -> ! {
+    if std::env::var("AQV_C17_BURST_ONLY").is_ok() {
+        let (v, n) = burst_phase(args.tier.thorough(), &[(1, 1), (1, 2), (2, 1), (2, 2), (3, 3)]);
+        println!("bursts {} -> {:#?}", n, v.iter().map(|x| (&x.0, &x.1)).collect::<Vec<_>>());
+        std::process::exit(0);
+    }
+
+
     let mut run = Run::new(args, "model_checking");
     let th = args.tier.thorough();
     run.set("engine", "netmc: breadth-first enumeration of event sequences over an abstract reference model (announce with own / another connection's peer id, offers, answers, scrapes merged over swarm workers, orderly and abrupt close); every explored transition is replayed with its BFS-tree path in a fresh namespace against aquatic_ws::run in child processes; after every event every connection (plus a monitor connection) is fenced with a scrape covering all swarm workers and the messages each connection received are compared with a reference tracker that follows the implementation's (random) choice of offer receivers after checking its legality");
-    run.assume("executor scheduling inside the tracker is not controlled; at most a handful of messages are ever in flight towards one connection (the 16-slot local channel that drops on overflow is outside this bound)");
+    run.assume("executor scheduling inside the tracker is not controlled; paths issue one request at a time, pipelining is covered by the burst phase (1..=16, 17, 24, 64, 200 requests in one flush)");
     run.assume("path enumeration deduplicates on an abstract state that ignores pending offers");
     let p_main = Params { conns: 3, torrents: 2, offers: vec![0, 3], kinds: vec![K::Leech, K::Seed, K::Stop], foreign: true, answers: true, scrapes: vec![1, 2] };
     let depth = if th { 3 } else { 2 };
@@ -765,6 +871,17 @@ pub fn main(args: &Args) -> ! {
     if let Some(rp) = &args.replay {
         let r = load_replay(rp);
         let d = &r["detail"];
+        if let Some(b) = d.get("burst") {
+            let (sw, wm) = (d["socket_workers"].as_u64().unwrap_or(1) as u8, d["swarm_workers"].as_u64().unwrap_or(1) as u8);
+            let trk = start_tracker(sw, wm);
+            let (n, s_w, r_w) = (b["n"].as_u64().unwrap_or(17) as usize, b["sender_worker"].as_u64().unwrap_or(0) as u8, b["receiver_worker"].as_u64().unwrap_or(0) as u8);
+            let r = burst(&trk, 777_002, n, s_w, r_w);
+            for (sig, what, d) in judge_burst(sw, wm, n, s_w, r_w, r) {
+                run.violation(sig, what, d);
+            }
+            run.set("states", 1);
+            run.finish();
+        }
         let path: Vec<WEv> = serde_json::from_value(d["path"].clone()).unwrap_or_else(|e| machinery_failure(&format!("bad path: {}", e)));
         let trk = start_tracker(d["socket_workers"].as_u64().unwrap_or(1) as u8, d["swarm_workers"].as_u64().unwrap_or(1) as u8);
         let pl = Placement { conn_worker: serde_json::from_value(d["conn_worker"].clone()).unwrap_or(vec![0, 1, 2]), torrent_worker: serde_json::from_value(d["torrent_worker"].clone()).unwrap_or(vec![0, 1]) };
@@ -854,6 +971,10 @@ pub fn main(args: &Args) -> ! {
         }
     }
     run.set("fresh_tracker_ownership_paths", fresh_paths.len() as u64);
+    // ---- pipelined bursts: n requests in one flush on one connection
+    let (burst_viols, bursts) = burst_phase(th, &configs);
+    viols.lock().unwrap().extend(burst_viols);
+    run.set("pipelined_bursts", bursts);
     let mut vs = viols.into_inner().unwrap();
     vs.sort_by_key(|v| v.2["path"].as_array().map(|a| a.len()).unwrap_or(99));
     for (sig, what, d) in vs {
